@@ -60,6 +60,10 @@ def run(tier, seed):
     free += [("free_big_%d" % i, ["--seed", str(rng.randrange(1 << 30)), "--threads", "3", "--ops", "14", "--keys", "300",
                                   "--rounds", "4"]) for i in range(2 if tier == "quick" else 10)]
     collect(PROP, ce.run_free(fxv, rd, free), rd, ["RangeStable"], viol, cst)
+    # ScanConc.tla: every interleaving of scans against writers / the sweeper over three keys on the design model,
+    # each behaviour judged by LinTrace and replayed on the real store (arrivals, items, versions, both indexes)
+    import scanengine
+    scaninfo = scanengine.part(PROP, tier, seed, rd, fxv, viol, cst, ["RangeStable", "Linearizable"], collect)
     st["traces"] += cst["traces"]; st["states"] += cst["states"]; st["transitions"] += cst["transitions"]
     st["events"] += cst["events"]
     cov = q.coverage_dict(
@@ -67,7 +71,7 @@ def run(tier, seed):
         "one trace = one seeded program with a range_query (bounds: keys, prefixes, extensions, empty, "
         "0xFF.., start > end; limits 0..n+1) after about every third call, with expired and offloaded "
         "entries present; result compared element-wise (keys and values) with the model",
-        q.sample_events(st["sample_trace"]), extra={"concurrent_schedules": cst["schedules"]})
+        q.sample_events(st["sample_trace"]), extra={"concurrent_schedules": cst["schedules"], "scanconc": scaninfo})
     return {"level": "model_checking", "coverage": cov, "violations": viol,
             "assumptions": ["bounds are projected to ranks in the (sorted) key universe of the run"]}
 
